@@ -302,10 +302,10 @@ func RunC18(c *Ctx, r *Report) {
 	// ---- rule 5: external globals ----
 	r.Rule(prefix+"external-globals", "the only package-level variables of other packages that module code touches are on the frozen list (crypto/rand.Reader: concurrency-safe; io.EOF, binary.BigEndian: immutable)", 2)
 	allowedExt := map[string]string{
-		"crypto/rand.Reader":          "documented safe for concurrent use",
-		"io.EOF":                      "immutable error value, only compared",
-		"encoding/binary.BigEndian":   "zero-size value",
-		"io.ErrUnexpectedEOF":         "immutable error value",
+		"crypto/rand.Reader":        "documented safe for concurrent use",
+		"io.EOF":                    "immutable error value, only compared",
+		"encoding/binary.BigEndian": "zero-size value",
+		"io.ErrUnexpectedEOF":       "immutable error value",
 	}
 	extUse := map[string]string{}
 	for _, fn := range c.ModFuncs {
